@@ -343,11 +343,13 @@ Definition relink_names (ops : list op) : list text :=
   flat_map (fun o => match o with Relink n _ => [n] | Write _ _ => [] end) ops.
 
 (* ------------------------------------------------------------------ TemplateLookup.add_templatedir
-   Template.fromdir yields the files of a template directory in LISTING order (unsorted iterdir);
+   Template.fromdir yields the files of a template directory in the order sorted(path.iterdir(), key=lambda p: p.name)
+   (since 16ec2bc; before: in LISTING order, `load_dir_old`);
    TemplateLookup.add_template keys them by lower-cased name: a later template with the same key replaces the CONTENT
    but keeps the NAME of the earlier one (static templates only; the HTML/static and directory clashes raise). *)
 Definition tmpl := (text * N)%type.                       (* (file name, content) *)
 Definition tlookup := list (text * tmpl).                 (* CaseInsensitiveDict: lower-cased key -> (name, content) *)
+Definition tmpl_key (t : tmpl) : list Z := enc_text (fst t).
 
 Section Templates.
   Variable lower : text -> text.
@@ -358,6 +360,9 @@ Section Templates.
         if text_eqb k (lower (fst t)) then (k, (fst old, snd t)) :: r else (k, old) :: tl_add r t
     end.
   Definition load_dir (pi : list tmpl -> list tmpl) (files : list tmpl) (base : tlookup) : tlookup :=
+    fold_left tl_add (sort_by tmpl_key (pi files)) base.
+  (* before 16ec2bc: for entry in path.iterdir() *)
+  Definition load_dir_old (pi : list tmpl -> list tmpl) (files : list tmpl) (base : tlookup) : tlookup :=
     fold_left tl_add (pi files) base.
 End Templates.
 Fixpoint tl_lookup (k : text) (lk : tlookup) : option tmpl :=
